@@ -87,6 +87,47 @@ def run(ctx):
 
     supported = list(SUPPORTED_VERSIONS)
     ctx.extra["library_supported_versions"] = supported
+    # An application builds its own list from what the public accessors hand out (adds a draft version it also
+    # speaks, drops the oldest).  What the *server* supports must not move with the caller's copy: everything below
+    # is judged against the snapshot taken above.
+    import importlib
+    import inspect
+    touched = []
+    for modname in ("chuk_mcp.protocol.types.versioning", "chuk_mcp.protocol.messages.initialize.send_messages",
+                    "chuk_mcp.protocol.messages.initialize", "chuk_mcp.protocol.types", "chuk_mcp.protocol.messages"):
+        try:
+            mod = importlib.import_module(modname)
+        except Exception:
+            continue
+        cands = [(n, o) for n, o in vars(mod).items() if callable(o) and not n.startswith("_")]
+        pv = getattr(mod, "ProtocolVersion", None)
+        if pv is not None:
+            cands += [(f"ProtocolVersion.{n}", getattr(pv, n)) for n in dir(pv) if not n.startswith("_") and callable(getattr(pv, n))]
+        for name, fn in cands:
+            if inspect.isclass(fn):
+                continue
+            try:
+                sig = inspect.signature(fn)
+                if any(p.default is p.empty and p.kind in (p.POSITIONAL_ONLY, p.POSITIONAL_OR_KEYWORD, p.KEYWORD_ONLY)
+                       for p in sig.parameters.values()):
+                    continue
+                if inspect.iscoroutinefunction(fn):
+                    continue
+                out = fn()
+            except Exception:
+                continue
+            if isinstance(out, list) and out and all(isinstance(x, str) for x in out):
+                out.insert(0, "2031-01-01")
+                out.append("1999-09-09")
+                if len(out) > 3:
+                    del out[2]
+                touched.append(f"{modname.rsplit('.', 1)[-1]}.{name}")
+    ctx.extra["list_accessors_mutated"] = sorted(set(touched))
+    ctx.count("list_accessors_mutated", len(set(touched)))
+    if ctx.shard[0] == 0 and list(SUPPORTED_VERSIONS) != supported:
+        ctx.violation("supported_versions_changed_through_accessor", f"after a caller edited the lists returned by "
+                      f"{sorted(set(touched))} the library's own supported list is {list(SUPPORTED_VERSIONS)} (was {supported})",
+                      {"accessors": sorted(set(touched))})
 
     dcases = [c for c in direct_cases(ctx) if ctx.mine()]
 
